@@ -19,6 +19,8 @@ def spec_to_float32(spec):
         A list of (name, dtype) for every attribute of a jitclass, where float64
         have been replaced by float32.
     """
+    if spec is None:  # classes without attributes (e.g. Logistic, Poisson) have no spec
+        return None
     spec32 = []
     for name, dtype in spec:
         if dtype == float64:
